@@ -193,6 +193,12 @@ def extract_item(e):
     end = match_brace(t, s)
     item = t[s:end]
     item = rewrite(item, e.get("keep_pub", False))
+    if e.get("abstract_fields") is not None:
+        # struct item: every field type is abstracted to u64 (equality-preserving), except the listed fields
+        keep = set(e["abstract_fields"])
+        def _abs(m):
+            return m.group(0) if m.group(2) in keep else f"{m.group(1)}{m.group(2)}: u64,"
+        item = re.sub(r"(?m)^(\s*)(\w+):\s*[^\n]+?,\s*$", _abs, item)
     for a, b in e.get("sig_subst", []):
         # textual substitution in the signature (type erasure of reader type parameters)
         if item.count(a) != 1:
